@@ -57,6 +57,11 @@ def random_case(rng, big=False):
         ad, idur = rng.randint(1, 9), rng.randint(1, 9)
     evs = sorted((rng.randrange(n), rng.randint(1, 3), rng.choice([0, 0, 1, 2, 3] if not big else [0, 1, 2, 5, 14]))
                  for _ in range(ntags))
+    if rng.random() < 0.35:
+        # detection-only events of screening methods mixed in (stable sort keeps same-day order random)
+        evs += [(rng.randrange(n), rng.randint(4, 5), 0, 1) for _ in range(rng.randint(1, 3))]
+        rng.shuffle(evs)
+        evs.sort(key=lambda e: e[0])
     return (start, nrd, delay, rep, inter, ad, idur, n, evs)
 
 
@@ -94,6 +99,7 @@ def nontrivial_key(case, res):
     if res["status"] == "inactive":
         return None
     return (rep, inter, start < 0, start == -nrd, res["status"], res["by"][:1], len(evs) > 1,
+            any(len(e) > 3 for e in evs),
             min(nrd, 7), min(delay, 4), min(n, 9), res["activeDays"] if res["activeDays"] < 8 else 8)
 
 
@@ -125,3 +131,186 @@ def impl_result(case):
     from harness.adapters import emission as E
 
     return parse_summary(E.impl_line(case))
+
+
+# ------------------------------------------------------------------------------------------------
+# whole-run stage shared by C02 / C03 / C04 (/ C11): real simulator runs, records joined with the
+# baseline program's records of the same simulation, tag events of each record's component
+# ------------------------------------------------------------------------------------------------
+def run_configs(ctx, n, **overrides):
+    """n generated configurations run by the real simulator (in parallel); returns list of Result"""
+    import concurrent.futures as cf
+    from harness import wholerun as W
+
+    cfgs = [W.make_config(ctx.rng, **overrides) for _ in range(n)]
+    with cf.ThreadPoolExecutor(max_workers=min(8, max(1, n))) as ex:
+        results = list(ex.map(lambda c: W.run_config(c, debug=True, trace=True), cfgs))
+    good = []
+    for r in results:
+        if r.rc != 0:
+            ctx.count("wholerun_config_crashed")
+            ctx.note("whole run crashed (skipped here; crashes are judged by the property that owns them): "
+                     + r.log.strip().splitlines()[-1][:200])
+            last = r.log
+            r.cleanup()
+            continue
+        good.append(r)
+    if not good and results:
+        raise RuntimeError("every whole run failed (infrastructure): " + last[-2000:])
+    return good
+
+
+def record_key(row):
+    return (row["Site ID"], row["Equipment"], row["Component"], row["Repairable"], row["Emissions ID"])
+
+
+def int_days(vol, rate):
+    x = float(vol) / (float(rate) * 86.4)
+    if abs(x - round(x)) > 1e-6:
+        return None
+    return int(round(x))
+
+
+def records(res):
+    """yields dict per (program, sim, emission) with integer-day fields and the baseline's twin"""
+    cfg = res.cfg
+    src_of = {}
+    if cfg["granular"]:
+        for s in cfg["sources"]:
+            src_of[(s["component"], s["repairable"])] = s
+    for sim in range(res.n_sims):
+        base = {record_key(r): r for r in (res.emissions(cfg["baseline"], sim) or [])}
+        for prog in res.programs:
+            rows = res.emissions(prog, sim) or []
+            tr = next((t for t in res.trace if t["prog"] == prog and t["sim"] == sim), {"events": []})
+            tags = {}
+            dets = {}
+            for idx, e in enumerate(tr["events"]):
+                if e[0] == "tag":
+                    tags.setdefault((e[2], e[3], e[4]), []).append((idx, e))
+                elif e[0] == "detect":
+                    dets.setdefault((e[2], e[3], e[4], e[7], e[6]), []).append((idx, e))
+            surveys = [e for e in tr["events"] if e[0] == "survey"]
+            for r in rows:
+                rep = r["Repairable"] == "True"
+                kind = cfg["rep"] if rep else cfg["nonrep"]
+                comp_type = r["Component"].rsplit("_", 1)[0]
+                src = src_of.get((comp_type, rep))
+                inter = bool(src) and not src["persistent"]
+                start = res.day_index(r["Date Began"])
+                rate = float(r['"True" Rate (g/s)'])
+                d = {
+                    "prog": prog, "sim": sim, "key": record_key(r), "row": r, "base": base.get(record_key(r)),
+                    "repairable": rep, "intermittent": inter,
+                    "adur": src["active"] if inter else 1, "idur": src["inactive"] if inter else 0,
+                    "start": start, "nrd": kind["duration"], "rate": rate,
+                    "status": r["Status"], "activeDays": int(r["Days Active"]),
+                    "daysEmitting": int(r["Days Emitting"]),
+                    "emitDays": int_days(r['"True" Volume Emitted (Kg Methane)'], rate),
+                    "mitDays": int_days(r["Mitigated Emissions (Kg Methane)"], rate),
+                    "endDate": res.day_index(r["Date Repaired or Expired"]),
+                    "by": r["Tagged By"] if rep else r["Recorded By"],
+                    "tagged": (r["Tagged"] if rep else r["Recorded"]) == "True",
+                    "initDetect": res.day_index(r["Initially Detected Date"]),
+                    "initDetectBy": r["Initially Detected By"],
+                    # tag requests reaching the record's component and detection-only events of this
+                    # emission, merged in the order the simulator produced them
+                    "tags": [e for _, e in sorted(
+                        tags.get((r["Site ID"], r["Equipment"], r["Component"]), [])
+                        + dets.get((r["Site ID"], r["Equipment"], r["Component"], rep, r["Emissions ID"]), []),
+                        key=lambda x: x[0])],
+                    "surveys": surveys,
+                }
+                yield d
+
+
+def model_line_for_record(rec, delay, n, method_ids):
+    evs = [(e[1], method_ids[e[5]], e[6]) if e[0] == "tag" else (e[1], method_ids[e[5]], 0, 1) for e in rec["tags"]]
+    return "case %d %d %d %d %d %d %d %d %s" % (
+        rec["start"], rec["nrd"], delay, int(rec["repairable"]), int(rec["intermittent"]), rec["adur"], rec["idur"],
+        n, "[" + ",".join("[" + ",".join(str(x) for x in e) + "]" for e in evs) + "]")
+
+
+def record_summary(rec, method_ids):
+    def by(x):
+        if x in ("", "None", "N/A", None):
+            return "-"
+        if x == "natural":
+            return "natural"
+        if x == "expired":
+            return "expire"
+        return "c%d" % method_ids[x]
+    idb = rec["initDetectBy"]
+    return "%s %d %s %s %s %s %d %s %s" % (
+        rec["status"], rec["activeDays"], rec["emitDays"], rec["mitDays"],
+        "-" if rec["endDate"] is None else rec["endDate"], by(rec["by"]), 1 if rec["tagged"] else 0,
+        "-" if rec["initDetect"] is None else rec["initDetect"], by(idb))
+
+
+def conform_records(ctx, res, recs):
+    """trace conformance: each record must be reproduced by the Lean model from (start, nrd, kind,
+    tag events of its component) for at least one of the configured repair delays"""
+    method_ids = {m: i + 1 for i, m in enumerate(sorted(res.cfg["methods"]))}
+    delays = [int(x) for x in res.cfg["repair_delay"]]
+    lines, owners = [], []
+    for rec in recs:
+        for dl in (delays if rec["repairable"] else delays[:1]):
+            lines.append(model_line_for_record(rec, dl, res.ndays, method_ids))
+            owners.append(rec)
+    out = LeanDriver("drv_emission").run(lines)
+    ok = {}
+    got = {}
+    for rec, ml in zip(owners, out):
+        want = record_summary(rec, method_ids)
+        k = (rec["prog"], rec["sim"], rec["key"])
+        got.setdefault(k, []).append(ml.split(" | ")[0])
+        if ml.split(" | ")[0] == want:
+            ok[k] = True
+    for rec in recs:
+        k = (rec["prog"], rec["sim"], rec["key"])
+        ctx.evaluations += 1
+        ctx.traces += 1
+        if not ok.get(k):
+            ctx.disagree("emission/whole-run-record",
+                         {"cfg": res.cfg, "prog": rec["prog"], "sim": rec["sim"], "key": list(rec["key"]),
+                          "tags": rec["tags"]},
+                         got.get(k), record_summary(rec, method_ids))
+            ctx.count("wholerun_disagree")
+        ctx.count("wholerun_records")
+
+
+def base_fields(rec):
+    """integer-day view of the baseline twin of a whole-run record (None if missing)"""
+    b = rec["base"]
+    if b is None:
+        return None
+    rate = float(b['"True" Rate (g/s)'])
+    return {"status": b["Status"], "activeDays": int(b["Days Active"]),
+            "emitDays": int_days(b['"True" Volume Emitted (Kg Methane)'], rate),
+            "mitDays": int_days(b["Mitigated Emissions (Kg Methane)"], rate),
+            "endDateStr": b["Date Repaired or Expired"]}
+
+
+def wholerun_stage(ctx, n_quick, n_thorough, per_record, **overrides):
+    """runs generated configurations through the real simulator; trace conformance of every record
+    against the Lean model; `per_record(ctx, res, rec)` evaluates the property's oracle"""
+    results = run_configs(ctx, ctx.pick(n_quick, n_thorough), **overrides)
+    try:
+        for res in results:
+            recs = list(records(res))
+            conform_records(ctx, res, recs)
+            for rec in recs:
+                if rec["emitDays"] is None or rec["mitDays"] is None:
+                    ctx.violate("volume-not-integer-days",
+                                "a reported volume is not an integer number of days x rate x 86.4",
+                                {"cfg": res.cfg, "row": rec["row"]})
+                    continue
+                per_record(ctx, res, rec)
+                ctx.nontrivial.add(("wr", rec["repairable"], rec["intermittent"], rec["status"], rec["by"],
+                                    rec["start"] < 0, min(rec["activeDays"], 40), len(rec["tags"]) > 0))
+            ctx.count("wholerun_configs")
+            ctx.sample({"whole_run": {k: res.cfg[k] for k in ("granular", "start", "end", "n_sites", "repair_delay")},
+                        "records": len(recs)}, cap=8)
+    finally:
+        for res in results:
+            res.cleanup()
